@@ -1,5 +1,9 @@
 import FlatModel.Props.C07MG
-/-! The classical Misra–Gries bound fails for the crate's summary at its REAL capacity (1024): kernel-checked.
+/-! The classical Misra–Gries bound fails for the crate's summary at capacity 1024 (the value of the tuning constant
+`MG.cap` in the crate as verified): kernel-checked. The capacity is a literal here (`MG.runK 1024`, the generic run of
+Proofs/MisraGries.lean; `run_generic : run ops = MG.runK MG.cap ops`), because the adversarial stream is built for it —
+the statement does not follow the regenerated `MG.cap` and stays true, as a statement about capacity 1024, when the
+crate is retuned.
 This module is not imported by anything; it takes about 13 minutes to check (`lake build FlatModel.Props.C07MGBig`):
 `decide +kernel` runs the model on 2048 insertions (three compactions of 1024 entries) inside the kernel. -/
 namespace FC.C07
@@ -20,7 +24,7 @@ def attack (k r : Nat) : List (Bytes × Nat) :=
 from the summary. (With 40 rounds, evaluated only: weight 80 of 21073, 21073/513 = 41, estimate 0; the proved
 bound `(total + n)/513` gives 81.) -/
 theorem classical_bound_fails_1024 :
-    est (run (attack 512 3)) attackVictim = 0 ∧ trueCount (attack 512 3) attackVictim = 6 ∧
+    est (MG.runK 1024 (attack 512 3)) attackVictim = 0 ∧ trueCount (attack 512 3) attackVictim = 6 ∧
     total (attack 512 3) / 513 = 4 ∧ (attack 512 3).length = 2048 := by
   set_option maxRecDepth 10000000 in
   set_option maxHeartbeats 8000000 in
